@@ -121,6 +121,19 @@ def run(ctx, coq_ok):
     for k, (d, label, sql) in enumerate(items):
         others = [(rng.choice(["ansi", "tsql", "mysql", d]), rng.choice(bad + [items[rng.randrange(len(items))][2]])) for _ in range(2)]
         jobs.append((d, label, sql, others, k % 3 == 0))
+    # hand-made statements that make the parser revisit a location with different alternatives in play (two-token operators inside a
+    # simple-CASE operand, nested functions, BETWEEN/IN/LIKE chains, set operators, casts), plus the fix monitors' adjacency cases
+    from harness import fixjobs
+    extra = [("ansi", "SELECT CASE x >= 1 WHEN TRUE THEN 1 END FROM t\n"), ("ansi", "SELECT CASE x <= 1 WHEN TRUE THEN 1 WHEN FALSE THEN 2 ELSE 3 END FROM t\n"),
+             ("ansi", "SELECT CASE a <> b WHEN TRUE THEN 'x' END, CASE WHEN a >= b THEN 1 END FROM t\n"), ("ansi", "SELECT a BETWEEN b AND c AND d, e NOT IN (1, 2) OR f LIKE 'x' FROM t\n"),
+             ("ansi", "SELECT f(g(h(a, b), c), d) OVER (PARTITION BY x ORDER BY y) FROM t\n"), ("ansi", "SELECT 1 UNION SELECT 2 EXCEPT SELECT 3 INTERSECT SELECT 4\n"),
+             ("postgres", "SELECT a::int::text, b->>'c' >= 'd', ARRAY[1,2][1] FROM t\n"), ("tsql", "SELECT CASE x >= 1 WHEN 1 THEN 2 END, [a] FROM [t]\n"),
+             ("bigquery", "SELECT CASE x >= 1 WHEN TRUE THEN STRUCT(1 AS a) END, arr[OFFSET(0)] FROM `p.d.t`\n"), ("snowflake", "SELECT CASE x <> 1 WHEN TRUE THEN v:a.b::string END FROM t\n"),
+             ("mysql", "SELECT CASE x <=> 1 WHEN TRUE THEN 1 END, a != b FROM t\n"), ("sqlite", "SELECT CASE x >= 1 WHEN 1 THEN 2 END, a IS NOT b FROM t\n")]
+    for d, _l, sql in fixjobs.HOSTILE:
+        extra.append((d, sql))
+    for k, (d, sql) in enumerate(extra):
+        jobs.append((d, "hostile", sql, [], k % 3 == 0))
     results = []
     for (d, label, sql, others, cp), st, res in corpus.pmap("harness.props.c06", "diff_case", jobs):
         if st != "ok":
